@@ -667,8 +667,18 @@ def emit_slice(spec, log, vacuity=False):
         if len(hits) != 1:
             raise ExtractError('%s: slice anchor `%s` matches %d sites (anchor lost)' % (spec.path, sel[1], len(hits)))
         k = hits[0]
-        while st[k].text != ';':
-            k = m[k] + 1 if st[k].text in OPEN else k + 1
+        # end of the statement that starts with the anchor: `;` at depth 0, or the closing brace of a block statement
+        while True:
+            tx = st[k].text
+            if tx in OPEN:
+                k = m[k]
+                if st[k].text == '}' and st[k + 1].text not in (';', '.', '?', 'else', '{'):
+                    break
+                k += 1
+                continue
+            if tx == ';':
+                break
+            k += 1
         lo, hi = k + 1, it.last - 1
         desc = 'all statements after `%s`' % sel[1]
     else:
